@@ -377,3 +377,137 @@ func H_C10_nilVariables() {
 	vfAssert(e1 == nil && o1 == "[S]", "the first execution sees its own declaration")
 	vfAssert(e2 == nil && o2 == "unset", "the next execution starts without it")
 }
+
+// H_C10_rangerResidue: the first execution leaves a range over a map / slice / ints() /
+// channel early - by a return inside the body, or by a failure - and a later execution on
+// the same goroutine ranges over an empty, a one-element and a full collection of the same
+// kind: each renders exactly what it renders on a fresh Set (the pooled rangers carry
+// nothing over).
+//
+//gosym:reach compared
+func H_C10_rangerResidue() {
+	kind := ndChoice("kind", 4)
+	exit := ndChoice("exit", 3) // 0 return, 1 failure, 2 return from a nested range
+	size := ndChoice("size", 3) // of the later collection: 0, 1, 3 elements
+	mk := func(n int) interface{} {
+		switch kind {
+		case 0:
+			m := map[string]int{}
+			for i := 0; i < n; i++ {
+				m["k"+ndItoa(i)] = i + 1
+			}
+			return m
+		case 1:
+			s := []int{}
+			for i := 0; i < n; i++ {
+				s = append(s, i+1)
+			}
+			return s
+		case 2:
+			return newIntsRanger(0, int64(n))
+		default:
+			ch := make(chan int, 4)
+			for i := 0; i < n; i++ {
+				ch <- i + 1
+			}
+			close(ch)
+			return ch
+		}
+	}
+	firsts := []string{
+		`{{ range k, v := c }}{{ return v }}{{ end }}`,
+		`{{ range k, v := c }}{{ boom() }}{{ end }}`,
+		`{{ range k, v := c }}{{ range k2, v2 := c2 }}{{ return v2 }}{{ end }}{{ end }}`,
+	}
+	if kind == 3 {
+		firsts = []string{`{{ range v := c }}{{ return v }}{{ end }}`, `{{ range v := c }}{{ boom() }}{{ end }}`, `{{ range v := c }}{{ range v2 := c2 }}{{ return v2 }}{{ end }}{{ end }}`}
+	}
+	second := `{{ range k, v := c }}[{{ v }}]{{ else }}empty{{ end }}`
+	if kind == 3 {
+		second = `{{ range v := c }}[{{ v }}]{{ else }}empty{{ end }}`
+	}
+	run := func(set *Set, name string, n int) string {
+		vars := make(VarMap)
+		vars.Set("c", mk(n))
+		vars.Set("c2", mk(3))
+		vars.SetFunc("boom", hxFail)
+		out, err := hxExec(set, name, vars, nil)
+		if err != nil {
+			return out + "<error>"
+		}
+		return out
+	}
+	n2 := []int{0, 1, 3}[size]
+	fresh := hxSet(nil, "/second.jet", second)
+	want := run(fresh, "/second.jet", n2)
+	set := hxSet(nil, "/first.jet", firsts[exit], "/second.jet", second)
+	run(set, "/first.jet", 3)
+	got := run(set, "/second.jet", n2)
+	vfReach("compared")
+	vfNote(got)
+	ref := "empty"
+	if kind != 0 && n2 > 0 { // (map order is not fixed: the map case is compared with the fresh Set only when it has at most one entry)
+		ref = ""
+		for i := 0; i < n2; i++ {
+			ref += "[" + ndItoa(i+1-c10Zero(kind)) + "]"
+		}
+	}
+	if kind == 0 && n2 == 1 {
+		ref = "[1]"
+	}
+	if kind != 0 || n2 <= 1 {
+		vfAssert(got == ref, "a range renders once per element, else iff empty, whatever ran before")
+	}
+	if kind != 0 || n2 <= 1 {
+		vfAssert(got == want, "the same bytes as on a fresh Set")
+	} else {
+		vfAssert(len(got) == len(want), "as many elements as on a fresh Set")
+	}
+}
+
+// ints() counts from 'from': its elements are 0..n-1 where the other kinds hold 1..n.
+func c10Zero(kind int) int {
+	if kind == 2 {
+		return 1
+	}
+	return 0
+}
+
+// H_C10_lookupHistory: two executions on one Set, each including a template by an
+// extension-less name ("page", "page.html", "sub/page") that resolves through the extension
+// list to a different file (/page.jet, /page.html.jet, /sub/page.jet): whichever ran first,
+// the second renders exactly what it renders on a fresh Set.
+//
+//gosym:reach compared
+func H_C10_lookupHistory() {
+	names := []string{"page", "page.html", "sub/page", "/page", "./page.html"}
+	first, second := ndChoice("first", len(names)), ndChoice("second", len(names))
+	how := ndChoice("how", 3)
+	mk := func() *Set {
+		return hxSet(nil,
+			"/inc.jet", `<{{ include n }}>`,
+			"/exec.jet", `<{{ exec(n) }}>`,
+			"/iie.jet", `<{{ if includeIfExists(n) }}{{ end }}>`,
+			"/page.jet", `plain page{{ return "plain" }}`,
+			"/page.html.jet", `html page{{ return "html" }}`,
+			"/sub/page.jet", `sub page{{ return "sub" }}`,
+		)
+	}
+	tn := []string{"/inc.jet", "/exec.jet", "/iie.jet"}[how]
+	run := func(s *Set, k int) string {
+		vars := make(VarMap)
+		vars.Set("n", names[k])
+		out, err := hxExec(s, tn, vars, nil)
+		if err != nil {
+			return out + "<error>"
+		}
+		return out
+	}
+	want := run(mk(), second)
+	set := mk()
+	run(set, first)
+	got := run(set, second)
+	vfReach("compared")
+	vfNote(got)
+	vfAssert(got == want, "the same bytes whatever was looked up before")
+}
